@@ -285,13 +285,21 @@ def check(run, prog, tier):
     if not creates:
         nb = False
         how = "the pipe is created without O_NONBLOCK and its write end is not switched to it afterwards"
+        def flag_exprs(f, e):
+            """the expression, and what a local in it was assigned"""
+            out = [e]
+            for y in walk(e):
+                if y.get("k") == "Ref" and y.get("d") == "local" and y.get("id") is not None:
+                    out += [n3["R"] for b3, i3, n3 in f.nodes() if n3.get("k") == "Asg" and strip(n3["L"]).get("id") == y["id"]]
+                    out += [v["init"] for b3, i3, n3 in f.nodes() if n3.get("k") == "Decl" for v in n3.get("vars", ()) if v.get("id") == y["id"] and isinstance(v.get("init"), dict)]
+            return out
         for f, n in pipes:
-            if n.get("fn") == "pipe2" and len(n.get("args", [])) > 1 and facts.any_in_macro(n["args"][1], "O_NONBLOCK"):
+            if n.get("fn") == "pipe2" and len(n.get("args", [])) > 1 and any(facts.any_in_macro(x, "O_NONBLOCK") for x in flag_exprs(f, n["args"][1])):
                 nb, how = True, "pipe2(.., O_NONBLOCK ..): both ends non-blocking"
         for f in efuncs_raw:
             for b, i, n in f.calls("fcntl"):
                 a = n.get("args", [])
-                if len(a) >= 3 and chan in show(a[0]) and const_val(strip(a[0]).get("i") if strip(a[0]).get("k") == "Sub" else None) == 1 and any(facts.any_in_macro(x, "O_NONBLOCK") for x in a[2:]):
+                if len(a) >= 3 and chan in show(a[0]) and const_val(strip(a[0]).get("i") if strip(a[0]).get("k") == "Sub" else None) == 1 and any(facts.any_in_macro(y, "O_NONBLOCK") for x in a[2:] for y in flag_exprs(f, x)):
                     nb, how = True, "fcntl(%s, F_SETFL, .. O_NONBLOCK)" % show(a[0])
         run.ob("C19-c", "pipe-write-nonblocking", nb, how, pipes[0][0].file, pipes[0][1].get("l"), pipes[0][0].name,
                what="a post into a full notification pipe blocks the posting thread; stopping the timer or a worker (which joins that thread from the only reader of the pipe) then never returns")
